@@ -271,6 +271,11 @@ class Translator(object):
             if fn.get('kind') != 'DeclRefExpr':
                 self.err('indirect call', n)
             fname = fn['referencedDecl']['name']
+            if fname == 'givc_new_struct':
+                # g_slice_new0(struct T) / g_new0(T, 1) in the stub headers: a fresh zero-initialised struct
+                lit = self.strip(n['inner'][1])
+                tname = lit.get('value', '').strip('"').replace('struct ', '').strip()
+                return call('__newstruct', const(tname))
             args = [self.expr(a) for a in n['inner'][1:]]
             if fname in ('givc_message',):
                 return call('c_givc_message')
@@ -480,7 +485,18 @@ class Translator(object):
         if k == 'ForStmt':
             return self.for_stmt(n, out)
         if k == 'WhileStmt':
-            test = self.truth(n['inner'][0])
+            cond = n['inner'][0]
+            emb = self.embedded_assignment(cond)
+            if emb is not None:
+                # while ((x = f(..)) != NULL) body   ==>   while True: x = f(..); if not (x != NULL): break; body
+                hoisted = []
+                self.expr_stmt(emb, hoisted)
+                test = self.truth(self.replace_node(cond, emb, self.strip(emb)['inner'][0]))
+                body = hoisted + [pyast.If(test=pyast.UnaryOp(op=pyast.Not(), operand=test), body=[pyast.Break()], orelse=[])] \
+                    + self.block(n['inner'][1])
+                out.append(pyast.While(test=pyast.Constant(value=True), body=body, orelse=[]))
+                return
+            test = self.truth(cond)
             out.append(pyast.While(test=test, body=self.block(n['inner'][1]), orelse=[]))
             return
         if k == 'DoStmt':
@@ -504,6 +520,32 @@ class Translator(object):
         if k == 'GotoStmt' or k == 'LabelStmt':
             self.err('goto/label', n)
         return self.expr_stmt(n, out)
+
+    def embedded_assignment(self, n):
+        """the single `lhs = rhs` sub-expression of a loop condition (lhs a plain variable), or None"""
+        found = []
+
+        def walk(x, top):
+            if not isinstance(x, dict):
+                return
+            if x.get('kind') == 'BinaryOperator' and x.get('opcode') == '=' and not top:
+                l = self.strip(x['inner'][0])
+                if l.get('kind') == 'DeclRefExpr':
+                    found.append(x)
+                    return
+            for c in x.get('inner', []) or []:
+                walk(c, False)
+        walk(n, self.strip(n) is n and n.get('opcode') == '=')
+        return found[0] if len(found) == 1 else None
+
+    def replace_node(self, n, old, new):
+        if n is old:
+            return new
+        if isinstance(n, dict) and n.get('inner'):
+            m = dict(n)
+            m['inner'] = [self.replace_node(c, old, new) for c in n['inner']]
+            return m
+        return n
 
     switch_depth = 0
 
